@@ -539,3 +539,5 @@ fn(ME, "drive_shared_input_any_all", kind="function", setup=_setup_drv(("f1", "f
                 Any.unwrap(s.result[0]._value) == _any_val(0, s.v1))),
             ("other-waiter-on-the-shared-input-still-resumed", lambda s: Not(s.result[2]) & s.result[1]._resolved & mk_bool(
                 Any.unwrap(s.result[1]._value) == Any.unwrap([s.v2, s.v3])))])
+
+import specs.c02_ext  # noqa: E402,F401   (pre-resolved inputs of all_of; bounded in-flight hook stand-in)
